@@ -785,7 +785,7 @@ Proof.
   - apply insert_ledger; assumption.
   - apply extend_ledger; assumption.
   - apply remove_ledger; assumption.
-  - apply clear_ledger; assumption.
+  - exact (@clear_ledger w _ w' r evs HI H).
   - apply entry_add_ledger; assumption.
   - apply entry_remove_ledger; assumption.
   - apply write_ledger; assumption.
